@@ -260,3 +260,9 @@ def r8(ctx, R):
         R.check(not ew and er, f'ButcherTableauEmbedded.{name} :: reads one row of the weights', w, 'self.weights[0] (primary) / self.weights[1] (embedded)', f'whole-array reads at lines {ew}' if ew else 'no read')
     if not n:
         raise AnalysisError('C04.R8: ButcherTableau.globally_stiffly_accurate (the confirmed reader of self.weights) not found')
+
+
+@rule('C04', 'C04.R9', "the amplification matrices the library derives orders and stability from are those of the real sweep: matrix form of the IMEX sweep (shared with C02.R18)", floor=2)
+def r9_shared(ctx, R):
+    from . import c02
+    c02.r18(ctx, R)
